@@ -955,6 +955,38 @@ fn source_sets(r: &mut Rng, n: usize) -> Vec<Vec<String>> {
         vec!["{\"entry\":[1,[\"a\",{\"k\":true}]]}".to_string()],
         vec!["{\"a\":[[{\"k\":1}],[{\"k\":2}]],\"t\":[1,[[{\"m\":\"x\"}]]]}".to_string()],
     ];
+    // sibling objects of one layout where a member (of every kind) is optional in one sibling only, in
+    // both visiting orders: type names are derived from structure, so "same layout, different
+    // optionality" is where two definitions can be confused
+    let kinds = ["1", "\"s\"", "true", "[1,2]", "[1.5,\"N\"]", "{\"k\":1}", "[{\"k\":1}]", "[[1],[2]]"];
+    for x in kinds {
+        out.push(vec![
+            format!("{{\"home\":{{\"id\":1,\"m\":{x}}},\"work\":{{\"id\":2,\"m\":{x}}}}}"),
+            format!("{{\"home\":{{\"id\":3,\"m\":{x}}},\"work\":{{\"id\":4}}}}"),
+        ]);
+        out.push(vec![
+            format!("{{\"home\":{{\"id\":1,\"m\":{x}}},\"work\":{{\"id\":2,\"m\":{x}}}}}"),
+            format!("{{\"home\":{{\"id\":3}},\"work\":{{\"id\":4,\"m\":{x}}}}}"),
+        ]);
+        out.push(vec![
+            format!("{{\"home\":{{\"id\":1,\"m\":{x}}},\"work\":{{\"id\":2,\"m\":{x}}}}}"),
+            format!("{{\"home\":{{\"id\":3,\"m\":{x}}},\"work\":{{\"id\":4,\"m\":null}}}}"),
+        ]);
+    }
+    // merge sequences value / null / other kind / null in member, element and root position: the only way
+    // to an optional OneOf, a OneOf with a Null variant, or both at once
+    let vals = ["1", "\"s\"", "[1]", "{\"k\":1}"];
+    let ctxs = ["{\"a\":@}", "{\"v\":[@]}", "@", "{\"o\":{\"id\":1,\"a\":@}}"];
+    for (i, v1) in vals.iter().enumerate() {
+        for v2 in vals.iter().skip(i + 1) {
+            for c in ctxs {
+                let w = |v: &str| c.replace('@', v);
+                out.push(vec![w(v1), w("null"), w(v2), w("null")]);
+                out.push(vec![w("null"), w(v1), w(v2)]);
+                out.push(vec![w(v1), w(v2), w("null")]);
+            }
+        }
+    }
     for i in 0..n {
         let h = if i % 2 == 0 { clean_history(r) } else { rand_history(r, &keys) };
         let style = if i % 7 == 0 { 2 } else { 0 };
@@ -987,6 +1019,45 @@ pub fn c16(r: &mut Rng, sz: &Sizes, out: &mut Vec<String>) {
     out.push(format!("p_c16\t{}\t{}", crate::wire::hex(b"bad"), crate::wire::hex(b"{\"a\":")));
     out.push(format!("p_c16\t{}\t{}\t{}", crate::wire::hex(b"bad2"), crate::wire::hex(b"1"), crate::wire::hex(b"tru")));
     out.push(format!("p_c16\t{}", crate::wire::hex(b"empty")));
+    // histories of requests into one directory: repeated names with different source lists, failing
+    // requests in between (unreadable path, invalid text, empty list), several names, dotted names
+    let hx = |t: &str| crate::wire::hex(t.as_bytes());
+    let sets: Vec<Vec<&str>> = vec![
+        vec!["{\"name\":\"n\",\"age\":3}"],
+        vec!["{\"id\":1,\"items\":[1,2],\"paid\":true}"],
+        vec!["{\"name\":\"n\",\"age\":3}", "{\"name\":null}"],
+        vec!["[1,\"a\"]"],
+        vec!["1"],
+        vec!["{\"a\":"],          // invalid
+        vec!["!"],                 // unreadable
+        vec![],                    // empty list
+        vec!["1", "!"],
+        vec!["true", "tru"],
+    ];
+    let names = ["api", "v1.2", "my-shapes", "api.v2"];
+    let step = |name: &str, set: &Vec<&str>| -> String {
+        format!("{}:{}", hx(name), set.iter().map(|t| if *t == "!" { "!".to_string() } else { hx(t) }).collect::<Vec<_>>().join(","))
+    };
+    let mut hist: Vec<Vec<String>> = Vec::new();
+    for a in 0..sets.len() {
+        for b in 0..sets.len() {
+            hist.push(vec![step("api", &sets[a]), step("api", &sets[b])]);
+        }
+    }
+    for _ in 0..sz.histories / 10 {
+        let n = 2 + r.below(4);
+        let mut h = Vec::new();
+        for _ in 0..n {
+            let name = if r.chance(2, 3) { names[0] } else { *r.pick(&names) };
+            h.push(step(name, r.pick(&sets)));
+        }
+        hist.push(h);
+    }
+    for h in hist {
+        for mode in ["pre", "lazy"] {
+            out.push(format!("p_c16h\t{mode}\t{}\t!steps *", h.join("\t")));
+        }
+    }
 }
 
 pub fn generate(prop: &str, tier: &str, seed: u64) -> Vec<String> {
